@@ -28,7 +28,7 @@ LEVEL = "fault_enumeration"
 RULE = (
     "programs = forests <= 3 nodes x <= 1 deviation over {message api, 10 kB field, action style, "
     "failing exit}; mode A crash points = every prefix of the device event log (writes, flushes, "
-    "acknowledgements) x every prefix length of the unflushed bytes (all lengths for lines < 600 bytes, "
+    "acknowledgements; for every third program also with a destination that logs re-entrantly and acknowledges as soon as its nested logging call has returned) x every prefix length of the unflushed bytes (all lengths for lines < 600 bytes, "
     "boundaries and every 512th byte otherwise); mode B = real SIGKILL of a forked child at every "
     "before-write / after-write / after-flush / after-ack boundary on real disk files of 7 kinds (binary buffered/unbuffered/256 kB buffer, text buffered / write-through / line-buffered / 256 kB buffer), incl. lines larger than the default buffer; "
     "non-trivial = crash point that truncates the log (not the final one)"
@@ -150,6 +150,9 @@ def cases(unit, tier):
     elif unit[0] == "mem":
         for i in range(unit[1], unit[2]):
             yield ["mem", ps[i]]
+            if i % 3 == 0:
+                # the same program while a destination registered before the file logs re-entrantly
+                yield ["mem", ps[i], "audit"]
     else:
         yield ["real", ps[unit[1]], unit[2]]
 
@@ -203,8 +206,11 @@ def _patch_big(prog):
 EMITTED = [0]  # messages offered to the destinations so far (tap registered before the file)
 
 
-def run_program(prog, file_factory, on_ack):
-    """Run prog with to_file(file); on_ack() is called at every acknowledgement point."""
+def run_program(prog, file_factory, on_ack, on_nested_ack=None):
+    """Run prog with to_file(file); on_ack() is called at every acknowledgement point.
+    With on_nested_ack, a destination registered before the file logs an audit message of its own for
+    every application message (re-entrant logging) and calls on_nested_ack(id) as soon as that nested
+    logging call has returned."""
 
     def go():
         f = file_factory()
@@ -214,6 +220,18 @@ def run_program(prog, file_factory, on_ack):
             EMITTED[0] += 1
 
         eliot.add_destinations(tap)
+        if on_nested_ack is not None:
+            n_audit = [0]
+
+            def auditor(m):
+                if m.get("message_type", "").startswith(("audit", "eliot:")):
+                    return
+                n_audit[0] += 1
+                k = n_audit[0]
+                eliot.log_message("audit", audit_id=k)
+                on_nested_ack(k)
+
+            eliot.add_destinations(auditor)
         eliot.add_destinations(FileDestination(file=f))
         saved = progs.FIELDSETS[1]
         progs.FIELDSETS[1] = {"x": BIG}
@@ -241,7 +259,7 @@ def run_program(prog, file_factory, on_ack):
     return world.run_isolated(go)
 
 
-def check_image(image, ref_lines, acked, ctx):
+def check_image(image, ref_lines, acked, ctx, required_ids=()):
     """image: surviving bytes; ref_lines: crash-free lines (bytes, with newline)."""
     viol = []
     parts = image.split(b"\n")
@@ -252,6 +270,14 @@ def check_image(image, ref_lines, acked, ctx):
         return viol
     if len(lines) < acked:
         viol.append(("acknowledged-message-lost", dict(ctx, complete_lines=len(lines), acknowledged=acked)))
+    if required_ids:
+        have_ids = set()
+        for l in lines:
+            if b'"audit_id"' in l:
+                have_ids.add(json.loads(l).get("audit_id"))
+        missing = sorted(set(required_ids) - have_ids)
+        if missing:
+            viol.append(("acknowledged-message-lost:reentrant-logging-call-returned", dict(ctx, missing_audit_ids=missing[:3])))
     if frag:
         nxt = ref_lines[len(lines)] if len(lines) < len(ref_lines) else b""
         if not nxt.startswith(frag):
@@ -318,14 +344,14 @@ def _messages(tasks):
             yield x
 
 
-def run_mem(prog):
+def run_mem(prog, audit=False):
     events = []
     acks = [0]
 
     def on_ack():
         events.append(("ack", EMITTED[0]))
 
-    run_program(prog, lambda: Device(events), on_ack)
+    run_program(prog, lambda: Device(events), on_ack, (lambda k: events.append(("ack-id", k))) if audit else None)
     writes = [e[1] for e in events if e[0] == "write"]
     ref_lines = []
     buf = b"".join(writes)
@@ -339,6 +365,7 @@ def run_mem(prog):
     durable = b""
     unflushed = b""
     acked = 0
+    required = set()
     for i in range(len(events) + 1):
         # crash after events[:i]
         lengths = range(len(unflushed) + 1) if len(unflushed) < 600 else sorted(
@@ -349,7 +376,7 @@ def run_mem(prog):
             image = durable + unflushed[:k]
             if len(image) < len(buf):
                 nontrivial += 1
-            for sig, d in check_image(image, ref_lines, acked, {"event_prefix": i, "unflushed_bytes_surviving": k, "of": len(unflushed)}):
+            for sig, d in check_image(image, ref_lines, acked, {"event_prefix": i, "unflushed_bytes_surviving": k, "of": len(unflushed)}, required):
                 viol.append((sig, d))
             if len(viol) > 3:
                 break
@@ -361,6 +388,8 @@ def run_mem(prog):
         elif e[0] == "flush":
             durable += unflushed
             unflushed = b""
+        elif e[0] == "ack-id":
+            required.add(e[1])
         else:
             acked = e[1]
     # the number of acked messages must reach all messages at the end
@@ -481,7 +510,7 @@ def run_case(case):
         world.fresh()
         return Result(outcome=["concurrent", len(v)], violations=v)
     if case[0] == "mem":
-        points, nontrivial, nlines, viol = run_mem(case[1])
+        points, nontrivial, nlines, viol = run_mem(case[1], audit=len(case) > 2)
         key = "crash_points_in_memory"
     else:
         points, nontrivial, nlines, viol = run_real(case[1], case[2] if len(case) > 2 else "binary-buffered")
